@@ -917,8 +917,79 @@ pub fn gen_http_server(tapes: &[Vec<u32>]) -> RawCase {
     RawCase { h2_side: Side::Server, base, spec, inject: Some(inj), probe_stream: probe, e_out_cap: None }
 }
 
+/// h2 client: the server promises a request whose header section is generated / mutated (C13: pushes).
+fn gen_http_client_push(t: &mut Tape, tapes: &[Vec<u32>]) -> RawCase {
+    let cfg = plain_cfg();
+    let r1 = default_req(1);
+    let mut r2 = default_req(2);
+    r2.delay = 60;
+    let reqs = vec![r1, r2];
+    let mut script: Vec<PStep> = vec![PStep::Barrier, PStep::WaitStreams(1), PStep::Mark("inject".into())];
+    let method = *t.pick(&["GET", "GET", "HEAD", "POST", "OPTIONS"]);
+    let mut fields = push_fields("/p/gen", method);
+    fields.push(("x-p".into(), "1".into()));
+    let mut labels: Vec<&'static str> = Vec::new();
+    if t.chance(1, 3) {
+        fields.push(("content-length".into(), (*t.pick(&["0", "0", "5", "x"])).to_string()));
+        labels.push("with-content-length");
+    }
+    let nm = t.weighted(&[3, 5]);
+    for _ in 0..nm {
+        let l = mutate_fields(t, &mut fields, true);
+        if l != "none" {
+            labels.push(l);
+        }
+    }
+    let verdict = http::check(HKind::PushRequest, &fl(&fields), false, false);
+    let ok = verdict.is_valid();
+    script.push(PStep::PushPromise { stream: 1, promised: 2, fields: fields.clone(), splits: if t.chance(1, 3) { vec![1 + t.below(12)] } else { vec![] }, pad: None });
+    if ok {
+        script.push(PStep::Headers { stream: 2, fields: vec![(":status".into(), "200".into())], end_stream: true, splits: vec![], pad: None, prio: None, enc: 0 });
+    }
+    // the parent's own response is plain
+    script.push(PStep::Respond { nth: 0, fields: vec![(":status".into(), "200".into())], end_stream: true, splits: vec![] });
+    let mut item = format!("push:{}", method);
+    for l in &labels {
+        item.push(':');
+        item.push_str(l);
+    }
+    let mut inj = Inject {
+        item,
+        state: if ok { "valid-push".into() } else { format!("push:{}", verdict.malformed.join("+")) },
+        // (h2 fails the parent stream for a header section that is malformed at the HPACK/pseudo level and the promised
+        // stream for what it detects later; the property demands "the stream (or connection) is failed" and, above
+        // all, that nothing is handed to the application: the wire reaction is not pinned to one stream)
+        class: if ok { Class::Legal } else { Class::Either },
+        stream: 2,
+        basis: "RFC 9113 §8.4.1 promised requests (safe, cacheable, no body) and §8.1.1 / §8.3 header section rules".into(),
+        never_surface: if ok { vec![] } else { vec![2] },
+        must_deliver: vec![],
+        must_deliver_streams: vec![],
+        no_head: if ok { vec![] } else { vec![1000] },
+        no_clean_end: vec![],
+        prop: "C13".into(),
+        wire_optional: false,
+    };
+    if ok {
+        // the parent's response must arrive whatever happens to the push
+        inj.must_deliver = vec![(1, 0)];
+    }
+    script.push(PStep::Mark("after".into()));
+    script.push(PStep::Barrier);
+    script.push(PStep::WaitStreams(2));
+    script.push(PStep::Respond { nth: 1, fields: vec![(":status".into(), "200".into())], end_stream: true, splits: vec![] });
+    script.push(PStep::Barrier);
+    let spec = RawSpec { peer_settings: vec![], script, grant: Grant::Eager, close_at_end: false };
+    let mut base = base_case(t, tapes, cfg, reqs);
+    base.drop_send_request_at_end = true;
+    RawCase { h2_side: Side::Client, base, spec, inject: Some(inj), probe_stream: 2, e_out_cap: None }
+}
+
 pub fn gen_http_client(tapes: &[Vec<u32>]) -> RawCase {
     let mut t = Tape::new(&tapes[0]);
+    if t.chance(1, 4) {
+        return gen_http_client_push(&mut t, tapes);
+    }
     let cfg = plain_cfg();
     let method = *t.pick(&["GET", "GET", "HEAD", "POST"]);
     let mut r1 = default_req(1);
